@@ -34,22 +34,17 @@ package sqlc
 import (
 	"context"
 	"database/sql"
-	"encoding/hex"
 	"encoding/json"
 	"errors"
 	"fmt"
-	"sort"
 	"strconv"
 	"strings"
 	"sync"
 	"testing"
 	"time"
 
-	"github.com/alicebob/miniredis/v2"
-	"github.com/alicebob/miniredis/v2/server"
 	"github.com/zeromicro/go-zero/core/logx"
 	"github.com/zeromicro/go-zero/core/stores/cache"
-	"github.com/zeromicro/go-zero/core/stores/redis"
 	"github.com/zeromicro/go-zero/core/stores/sqlx"
 	"github.com/zeromicro/go-zero/core/timex"
 	"github.com/zeromicro/go-zero/internal/verifh"
@@ -62,144 +57,6 @@ type c06Row struct {
 }
 
 var errC06DB = errors.New("verif: database down")
-
-const c06Injected = "ERR verif injected outage"
-
-type c06Src struct{ v int64 }
-
-func (s *c06Src) Int63() int64 { return s.v }
-func (s *c06Src) Seed(int64)   {}
-
-func (s *c06Src) setJ(j int) {
-	// rand.Rand.Float64 is float64(Int63()) / 2^63 (redrawn if it rounds to 1)
-	if j >= 1000 {
-		s.v = 1<<63 - 1024 // the largest draw: 1 - 2^-53
-	} else {
-		s.v = int64(j) * ((1 << 62) / 500)
-	}
-}
-
-type c06Cmd struct {
-	name string
-	node int
-	keys []string // tokens
-	fail bool
-}
-
-func (c c06Cmd) String() string {
-	r := ":ok"
-	if c.fail {
-		r = ":fail"
-	}
-	return fmt.Sprintf("%s/%d/%s%s", c.name, c.node, strings.Join(c.keys, "+"), r)
-}
-
-const (
-	c06ModeOrder = iota // mask over the commands of the operation in issue order
-	c06ModeNode         // one mask per node over the commands sent to that node
-	c06ModeDown         // one bit per node: every command to the node fails
-)
-
-type c06Harness struct {
-	mu    sync.Mutex
-	mode  int
-	masks []string
-	n     int
-	cnt   [8]int
-	log   []c06Cmd
-	tok   map[string]string // Redis key -> token
-}
-
-func (h *c06Harness) begin(mode int, mask string) {
-	h.mu.Lock()
-	h.mode, h.n, h.log = mode, 0, nil
-	h.cnt = [8]int{}
-	h.masks = strings.Split(mask, "/")
-	h.mu.Unlock()
-}
-
-func (h *c06Harness) next(node int, name string, keys []string) bool {
-	h.mu.Lock()
-	defer h.mu.Unlock()
-	fail := false
-	bit := func(m string, i int) bool { return i < len(m) && m[i] == '1' }
-	switch h.mode {
-	case c06ModeOrder:
-		fail = bit(h.masks[0], h.n)
-	case c06ModeNode:
-		fail = node < len(h.masks) && bit(h.masks[node], h.cnt[node])
-	case c06ModeDown:
-		fail = bit(h.masks[0], node)
-	}
-	h.n++
-	h.cnt[node]++
-	toks := make([]string, len(keys))
-	for i, k := range keys {
-		t, ok := h.tok[k]
-		if !ok {
-			t = "raw:" + hex.EncodeToString([]byte(k))
-		}
-		toks[i] = t
-	}
-	h.log = append(h.log, c06Cmd{name, node, toks, fail})
-	return fail
-}
-
-// cmds prints the commands of the operation: "order" = as issued, "node" = stably sorted by node,
-// "text" = sorted by their text (the cleaner runs its retries concurrently).
-func (h *c06Harness) cmds(how string) string {
-	h.mu.Lock()
-	defer h.mu.Unlock()
-	if len(h.log) == 0 {
-		return "-"
-	}
-	l := append([]c06Cmd(nil), h.log...)
-	if how == "node" {
-		sort.SliceStable(l, func(i, j int) bool { return l[i].node < l[j].node })
-	}
-	out := make([]string, len(l))
-	for i, c := range l {
-		out[i] = c.String()
-	}
-	if how == "text" {
-		sort.Strings(out)
-	}
-	return strings.Join(out, ",")
-}
-
-// hook is the miniredis pre-hook of cache node `node`.
-func (h *c06Harness) hook(node int) server.Hook {
-	return func(c *server.Peer, cmd string, args ...string) bool {
-		name := ""
-		var keys []string
-		switch cmd {
-		case "GET":
-			name, keys = "get", args[:1]
-		case "DEL":
-			name, keys = "del", args
-		case "SET":
-			name, keys = "set", args[:1]
-			// SETEX / SETNX EX are sent as SET with EX / NX arguments
-			for _, a := range args[2:] {
-				if a == "nx" || a == "NX" {
-					name = "setnx"
-				}
-			}
-		case "SETEX", "SETNX", "PSETEX", "GETDEL", "GETEX", "UNLINK", "EXPIRE", "PERSIST", "MSET", "MGET", "APPEND":
-			name, keys = strings.ToLower(cmd), args[:1] // not expected: shows up as an unknown command in the trace
-		default:
-			return false
-		}
-		// every command gets its own instant: the cleaner runs up to 5 retries at once and many can be due at
-		// the same tick, but no breaker window (10 s) ever holds more than the 5 requests in flight
-		timex.VerifAdvance(20 * time.Second)
-		if h.next(node, name, keys) {
-			c.WriteError(c06Injected)
-			return true
-		}
-		return false
-	}
-}
 
 func c06Val(tok string) (any, string) {
 	// returns the Go value to hand to SetCache and the raw string for `raw`
@@ -219,26 +76,6 @@ func c06Val(tok string) (any, string) {
 	panic("bad value token " + tok)
 }
 
-func c06Canon(raw string) string {
-	if raw == "*" {
-		return "*"
-	}
-	if strings.HasPrefix(raw, "!junk") {
-		if _, err := strconv.Atoi(raw[5:]); err == nil {
-			return "j:" + raw[5:]
-		}
-	}
-	if n, err := strconv.Atoi(raw); err == nil && strconv.Itoa(n) == raw {
-		return "k:" + raw
-	}
-	var r c06Row
-	if n, err := fmt.Sscanf(raw, `{"Id":%d,"V":%d,"A":%d}`, &r.Id, &r.V, &r.A); err == nil && n == 3 &&
-		fmt.Sprintf(`{"Id":%d,"V":%d,"A":%d}`, r.Id, r.V, r.A) == raw {
-		return fmt.Sprintf("r:%d:%d:%d", r.Id, r.V, r.A)
-	}
-	return "raw:" + hex.EncodeToString([]byte(raw))
-}
-
 func c06Err(err error) string {
 	switch {
 	case err == nil:
@@ -247,7 +84,7 @@ func c06Err(err error) string {
 		return "notfound"
 	case errors.Is(err, errC06DB):
 		return "dberr"
-	case strings.Contains(err.Error(), c06Injected):
+	case strings.Contains(err.Error(), cache.VerifC06Injected):
 		return "cacheerr"
 	}
 	return "err:" + strings.ReplaceAll(err.Error(), " ", "_")
@@ -268,33 +105,9 @@ func TestVerifC06(t *testing.T) {
 	timex.VerifSetNow(time.Hour)
 	defer timex.VerifClockOff()
 	verifh.Run(t, secs, func(cfg verifh.Cfg) (func(op []string) string, func()) {
-		nodes := cfg.Int("nodes", 1)
-		typ := cfg.Str("type", "node")
-		if nodes < 1 || nodes > 4 || (typ != redis.NodeType && typ != redis.ClusterType) {
-			panic("bad section cfg")
-		}
-		place := map[string]int{}
-		if p := cfg.Str("place", "-"); p != "-" && p != "" {
-			for _, e := range strings.Split(p, ",") {
-				f := strings.Split(e, ":")
-				place[f[0]] = verifh.Atoi(f[1])
-			}
-		}
 		// a fresh cleaner wheel per section: pending retries of one section never leak into the next
 		cleaner := cache.VerifC06SwapCleaner()
-		h := &c06Harness{tok: map[string]string{}}
-		mrs := make([]*miniredis.Miniredis, nodes)
-		nodeOf := map[string]int{} // address -> node index
-		var conf cache.CacheConf
-		for i := range mrs {
-			mrs[i] = miniredis.NewMiniRedis()
-			if err := mrs[i].Start(); err != nil {
-				panic(err)
-			}
-			mrs[i].Server().SetPreHook(h.hook(i))
-			nodeOf[mrs[i].Addr()] = i
-			conf = append(conf, cache.NodeConf{RedisConf: redis.RedisConf{Host: mrs[i].Addr(), Type: typ}, Weight: 100})
-		}
+		env, conf := cache.VerifC06NewEnv(cfg.Int("nodes", 1), cfg.Str("type", "node"), cfg.Str("place", "-"))
 		var opts []cache.Option
 		if e := cfg.Int("exp", 0); e != 0 {
 			opts = append(opts, cache.WithExpiry(time.Duration(e)*time.Millisecond))
@@ -303,44 +116,8 @@ func TestVerifC06(t *testing.T) {
 			opts = append(opts, cache.WithNotFoundExpiry(time.Duration(e)*time.Millisecond))
 		}
 		cc := NewConn(nil, conf, opts...)
-		if want := map[bool]string{true: "node", false: "cluster"}[nodes == 1]; cache.VerifC06Kind(cc.cache) != want {
-			panic("cache.New built a " + cache.VerifC06Kind(cc.cache) + " for " + strconv.Itoa(nodes) + " node(s)")
-		}
-		src := &c06Src{}
-		cache.VerifC06SetJitterSource(cc.cache, src, nodes)
-
-		// token -> Redis key: salted so that the dispatcher sends it to the node the section asks for
-		real := map[string]string{}
-		key := func(tok string) string {
-			if k, ok := real[tok]; ok {
-				return k
-			}
-			want := place[tok]
-			if want >= nodes {
-				panic("place names a node that does not exist: " + tok)
-			}
-			for salt := 0; salt < 100000; salt++ {
-				k := tok + "#" + strconv.Itoa(salt)
-				if nodeOf[cache.VerifC06NodeAddr(cc.cache, k)] == want {
-					real[tok] = k
-					h.mu.Lock()
-					h.tok[k] = tok
-					h.mu.Unlock()
-					return k
-				}
-			}
-			panic("no salt sends " + tok + " to node " + strconv.Itoa(want))
-		}
-		keysOf := func(toks string) []string {
-			if toks == "-" {
-				return nil
-			}
-			var out []string
-			for _, t := range strings.Split(toks, ",") {
-				out = append(out, key(t))
-			}
-			return out
-		}
+		env.Attach(cc.cache)
+		key, keysOf, dump := env.Key, env.Keys, env.Dump
 
 		rows := map[int]c06Row{}
 		idx := map[int]int{}
@@ -348,39 +125,11 @@ func TestVerifC06(t *testing.T) {
 		ctx := context.Background()
 		keyer := func(primary any) string { return key(fmt.Sprintf("p%v", primary)) }
 
-		dump := func() string {
-			var out []string
-			for i, mr := range mrs {
-				keys := mr.Keys()
-				ents := make([]string, 0, len(keys))
-				for _, k := range keys {
-					v, err := mr.Get(k)
-					if err != nil {
-						v = "?" + err.Error()
-					}
-					ttl := "inf"
-					if d := mr.TTL(k); d > 0 {
-						ttl = strconv.FormatInt(int64(d/time.Millisecond), 10)
-					}
-					h.mu.Lock()
-					t, ok := h.tok[k]
-					h.mu.Unlock()
-					if !ok {
-						t = "raw:" + hex.EncodeToString([]byte(k))
-					}
-					ents = append(ents, fmt.Sprintf("%d/%s=%s@%s", i, t, c06Canon(v), ttl))
-				}
-				sort.Strings(ents)
-				out = append(out, ents...)
-			}
-			return strings.Join(out, " ")
-		}
-
 		step := func(op []string) string {
 			timex.VerifAdvance(20 * time.Second)
-			src.setJ(verifh.Atoi(c06Opt(op, "j", "500")))
+			env.Jitter.SetJ(verifh.Atoi(c06Opt(op, "j", "500")))
 			dbfail := c06Opt(op, "db", "0") == "1"
-			h.begin(c06ModeOrder, c06Opt(op, "c", ""))
+			env.Begin(cache.VerifC06ModeOrder, c06Opt(op, "c", ""))
 			queries = 0
 			res := ""
 			how := "order"
@@ -546,7 +295,7 @@ func TestVerifC06(t *testing.T) {
 				}
 			case "exec":
 				keys := keysOf(op[1])
-				h.begin(c06ModeNode, c06Opt(op, "c", ""))
+				env.Begin(cache.VerifC06ModeNode, c06Opt(op, "c", ""))
 				how = "node"
 				w := strings.Split(op[2], ":")
 				_, err := cc.ExecCtx(ctx, func(ctx context.Context, conn sqlx.SqlConn) (sql.Result, error) {
@@ -576,7 +325,7 @@ func TestVerifC06(t *testing.T) {
 				res = c06Err(err)
 			case "del":
 				keys := keysOf(op[1])
-				h.begin(c06ModeNode, c06Opt(op, "c", ""))
+				env.Begin(cache.VerifC06ModeNode, c06Opt(op, "c", ""))
 				how = "node"
 				res = c06Err(cc.DelCacheCtx(ctx, keys...))
 			case "set":
@@ -587,20 +336,14 @@ func TestVerifC06(t *testing.T) {
 				res = c06Err(cc.SetCacheWithExpireCtx(ctx, key(op[1]), v, time.Duration(verifh.Atoi64(op[3]))*time.Millisecond))
 			case "raw":
 				_, raw := c06Val(op[2])
-				mr := mrs[place[op[1]]]
-				if err := mr.Set(key(op[1]), raw); err != nil {
-					panic(err)
-				}
-				mr.SetTTL(key(op[1]), time.Duration(verifh.Atoi64(op[3]))*time.Millisecond)
+				env.Raw(op[1], raw, time.Duration(verifh.Atoi64(op[3]))*time.Millisecond)
 				res = "ok"
 			case "ft":
-				for _, mr := range mrs {
-					mr.FastForward(time.Duration(verifh.Atoi64(op[1])) * time.Millisecond)
-				}
+				env.FastForward(time.Duration(verifh.Atoi64(op[1])) * time.Millisecond)
 				res = "ok"
 			case "tick":
 				n := verifh.Atoi(op[1])
-				h.begin(c06ModeDown, c06Opt(op, "c", "0"))
+				env.Begin(cache.VerifC06ModeDown, c06Opt(op, "c", "0"))
 				for i := 0; i < n; i++ {
 					timex.VerifAdvance(20 * time.Second)
 					cleaner.Tick()
@@ -611,13 +354,11 @@ func TestVerifC06(t *testing.T) {
 				return "bad-op"
 			}
 			cleaner.Sync()
-			return fmt.Sprintf("%s q=%d cmds=%s | %s", res, queries, h.cmds(how), dump())
+			return fmt.Sprintf("%s q=%d cmds=%s | %s", res, queries, env.Cmds(how), dump())
 		}
 		return step, func() {
 			cleaner.Close()
-			for _, mr := range mrs {
-				mr.Close()
-			}
+			env.Close()
 		}
 	})
 }
